@@ -260,3 +260,27 @@ PROPERTIES["C11"] = {
                "work-per-packet bounds, a reader whose first byte is not 0x16 (reachable only through the reader API, not through process_tcp_packet), table capacity/eviction",
     "assumptions": ["E1", "E3 ttl_cache model", "E6", "uptime kernels stubbed in the table harnesses"],
 }
+
+# ------------------------------------------------------------------------------------------ C17
+_c17 = [H("c17::c17_setting_id_roundtrip", "quick", "all 65536 setting ids", "SettingId::from(id).as_u16() == id; unknown ids stay unknown"),
+        H("c17::c17_window_update_payload", "quick", "every payload of 0..=8 bytes", "31-bit big-endian increment, reserved bit cleared; < 4 bytes: none"),
+        H("c17::c17_priority_payload", "quick", "every payload of 0..=8 bytes x every stream id", "E bit, 31-bit dependency, weight byte, stream id; < 5 bytes: none")]
+for n in ["0", "5", "6", "11", "12", "18", "23", "36"]:
+    _c17.append(H(f"c17::c17_settings_payload_{n}", "quick" if n in ("5", "6", "12", "23") else "thorough",
+                  f"every SETTINGS payload of {n} bytes", "one parameter per complete pair in wire order, big-endian id/value, partial pair ignored"))
+for n in ["s0_wu0_wu0", "s0_wu3_wu0", "s0_wu3_wu5", "wu0_s0_wu0", "s1_s0_wu0", "s0_s0_wu7", "s0_p3_p5", "p0_wu0_s0", "s0_wu1_p1"]:
+    _c17.append(H(f"c17::c17_select_{n}", "quick" if n in ("s0_wu3_wu0", "s0_wu3_wu5", "s1_s0_wu0", "s0_p3_p5") else "thorough",
+                  f"frame list {n} (type+stream id concrete), every payload byte symbolic",
+                  "settings from the first SETTINGS on stream 0; window update = first stream-0 WINDOW_UPDATE or 0; every PRIORITY frame in wire order"))
+PROPERTIES["C17"] = {
+    "harnesses": _c17,
+    "explanation": "Bounded model checking of the three payload decoders of akamai_extractor.rs against the RFC 7540 §6 layouts over every payload of the "
+                   "stated sizes, the setting-id mapping over all ids, and the frame-selection half of extract_akamai_fingerprint (hook "
+                   "verif_select_fingerprint_parts) on concrete frame lists with symbolic payloads.",
+    "functions": ["akamai_extractor::{parse_settings_payload, parse_window_update_payload, parse_priority_payload}",
+                  "akamai_extractor::{extract_settings_parameters, extract_window_update, extract_priority_frames} (via hook)", "akamai::SettingId::{from, as_u16}"],
+    "bounds": "SETTINGS payloads of 0..36 bytes (8 lengths), WINDOW_UPDATE/PRIORITY payloads <= 8 bytes, frame lists of 3 frames (9 type/stream patterns)",
+    "outside": "the S|WU|P|PS string and its SHA-256 (format!/join/sha2), pseudo-header order (HPACK), Http2Parser::parse_frames, the incremental extractor "
+               "(Http2FingerprintExtractor: 64 KiB buffer + all of the above) and hence chunk-independence (seed C17-2 is missed by design)",
+    "assumptions": ["E1 tracing stub"],
+}
